@@ -33,6 +33,7 @@ LEVEL_NOTE = (
 )
 ASSUMPTIONS = [
     "cache expiry by time is the backend's business and is not exercised",
+    "cache.set / cache.get are exercised on the in-tree recording backend only (dogpile's Mako plugin implements put(), not set(): NotImplementedError there is the third-party plugin's, found by the first thorough run and removed from the alphabet)",
     "the key is the name, not the arguments (documented): different arguments under one key replay the first output",
 ]
 BOUNDS = {
@@ -506,7 +507,7 @@ def events(cfg):
         if nt == 1:
             firstkey = {"page": "render_body", "d": {"default": "render_d", "literal": "K1", "ctx": "ka", "arg": "x"}[prog["key"]], "n": "n", "b": "render_b"}
             for s_ in prog["cached"]:
-                if s_ in firstkey and cfg["backend"] != "beaker-memory" and cfg["backend"] != "beaker-file":
+                if s_ in firstkey and cfg["backend"] == "rec":
                     ev.append(("set", ti, firstkey[s_]))
                     ev.append(("get", ti, firstkey[s_]))
                     break
